@@ -691,7 +691,8 @@ def body(ctx):
         "theorems are over an ordered field with floor (exact arithmetic); IEEE rounding is covered by the bit-exact "
         "Float correspondence and by comparing the code with the exact model on points >= 1e-9 cell sizes off every edge",
         "cell size > 0, nrows, ncols >= 1 (the property's quantifier); numpy argument conversion (atleast_1d/2d, astype) not modelled",
-        "conversion of NaN / out-of-range doubles to long long is the x86-64 one (INT64_MIN); it only decides non-finite points",
+        "the model converts NaN / out-of-range doubles to long long the x86-64 way (INT64_MIN) and then tests the integers; the kernel (since c8d188e) tests the floored doubles before casting: same cell for every input, compared bit for bit incl. non-finite points",
+        "geometry attributes of Grid are plain attributes; re-assigning them (python or numpy scalars) is treated as public API, as the library's own tests do",
     ]
 
 
